@@ -998,7 +998,8 @@ class DataSet:
             self.select(compscans=compscan, reset='')
             label_data = self.sensor.get('Observation/label')
             label = label_data.unique_values[label_data.indices[compscan]]
-            target = self.catalogue.targets[self.target_indices[0]]
+            # The first target in time order (target_indices is sorted by target index instead)
+            target = self.catalogue.targets[self.sensor['Observation/target_index'][0]]
             yield compscan, label, target
             # A quick way to reset the time selection to the original one
             self._set_keep(old_timekeep.copy())
